@@ -123,12 +123,12 @@ def classify(cfg, rq):
     allowed = _listed(cfg['ao'], origin)
     cred = allowed and _listed(cfg['ac'], origin)
     preflight = rq['method'] == 'OPTIONS' and bool(rq.get('acrm'))
+    listed = [cfg['ao']] if isinstance(cfg['ao'], str) else list(cfg['ao'])
     if origin == '':
         cls = 'empty'
     elif allowed:
         cls = 'allowed'
-    elif any(isinstance(cfg['ao'], (list, tuple, frozenset)) and o.lower() == origin.lower() for o in cfg['ao']) or (
-            isinstance(cfg['ao'], str) and cfg['ao'].lower() == origin.lower()):
+    elif any(o.lower() == origin.lower() for o in listed):
         cls = 'casevariant'
     else:
         cls = 'disallowed'
@@ -183,7 +183,10 @@ def _matches(got, want):
 def judge(case, cfg, rq, base, cors, before, succeeded, ran):
     """base / cors: Observed responses.  Raises Violation; returns (verdict, differs)."""
     cls, allowed, cred, preflight = classify(cfg, rq)
-    ctx = 'config=%r request=%r' % (
+    app_d = case['app']
+    ctx = '%s app (%s, target %s, Allow %r, outcome %r, middleware before/after CORS %r/%r) config=%r request=%r' % (
+        app_d['stack'], 'cors_enable=True' if app_d['via'] == 'flag' else 'CORSMiddleware', app_d['target'],
+        app_d.get('allow'), app_d['outcome'], app_d.get('before') or [], app_d.get('after') or [],
         {k: cfg[k] for k in ('ao', 'ac', 'eh')},
         {k: rq.get(k) for k in ('method', 'path', 'origin', 'acrm', 'acrh')})
     # (a) metamorphic baseline
@@ -603,7 +606,7 @@ class DecisionTable(_StaticDirMixin, Suite):
     Access-Control-Request-Method / -Headers; GET carrying Access-Control-Request-Method) x target (routed
     with default or custom on_options setting / omitting Allow, sink setting / omitting Allow, static
     route, unrouted) x responder outcome (ok, pre-sets Access-Control-Allow-Origin, raises 403, returns
-    403) x {falcon.App, falcon.asgi.App}; all 22 HTTP/WebDAV methods on four configurations.  Quick
+    403) x {falcon.App, falcon.asgi.App}; the remaining 16 HTTP/WebDAV methods on four configurations.  Quick
     enumerates every (allow_origins, allow_credentials) pair with expose_headers and wiring rotating,
     thorough the full product.  Oracle: identical to the same app without the CORS component outside
     Access-Control-*/Allow (entirely identical without an allowed Origin), and the decision table."""
@@ -613,9 +616,9 @@ class DecisionTable(_StaticDirMixin, Suite):
     budget = {'quick': 1, 'thorough': 1}
 
     def cases(self, tier):
-        def cells(configs, kinds):
+        def cells(configs, kinds, origins):
             for (cfg, via, sur), (target, allow, outcome), origin, (method, acrm, acrh), stack in itertools.product(
-                    configs, TARGET_CELLS, ORIGINS, kinds, ('wsgi', 'asgi')):
+                    configs, TARGET_CELLS, origins, kinds, ('wsgi', 'asgi')):
                 before, after = SURROUND[sur]
                 yield {
                     'app': {'stack': stack, 'via': via, 'cfg': cfg, 'before': before, 'after': after,
@@ -623,9 +626,9 @@ class DecisionTable(_StaticDirMixin, Suite):
                     'rq': {'method': method, 'path': PATHS[target], 'origin': origin, 'acrm': acrm, 'acrh': acrh},
                 }
 
-        for c in cells(table_configs(tier), CORE_KINDS):
+        for c in cells(table_configs(tier), CORE_KINDS, ORIGINS):
             yield c
-        for c in cells(SMALL_CONFIGS, REST_KINDS):
+        for c in cells(SMALL_CONFIGS, REST_KINDS, ORIGINS if tier == 'thorough' else [None, A_, D_]):
             yield c
 
     def run(self, case):
@@ -780,7 +783,7 @@ class SampledStack(_StaticDirMixin, Suite):
     req_succeeded at that point of the stack; the decision table is evaluated on that record."""
 
     name = 'sampled_stack'
-    budget = {'quick': 12000, 'thorough': 400000}
+    budget = {'quick': 10000, 'thorough': 300000}
 
     def strategy(self, tier):
         return _SAMPLED
@@ -814,5 +817,7 @@ SUITES = [DecisionTable(), SampledStack()]
 # F14 is repaired by the one-line patch proposed with this check; the predicate is only used if the
 # finding is listed as `known` instead.
 KNOWN = {
-    'F14': lambda suite_name, case, violation: violation.kind == 'withdrawn_preflight_keeps_credentials',
+    'F14': lambda suite_name, case, violation: (
+        violation.kind == 'withdrawn_preflight_keeps_credentials'
+        and case['rq']['method'] == 'OPTIONS' and bool(case['rq'].get('acrm'))),
 }
